@@ -1235,6 +1235,7 @@ def plan(tier, master_seed, runs=None):
     for e in range(E):
         spec = S.base_spec(gen)
         spec["footprint"] = True
+        spec["analytic"] = False  # (analytic + several levels is not a valid request)
         if e == 0:
             spec["halo"] = None  # the default configuration is always one of the entries
         step = 640
